@@ -1193,7 +1193,7 @@ def describe(prop):
             "rule": "Each run builds tracks/compositions through the library API (bars filled from a symbolic value vocabulary, all 30 keys, rests in every position, instruments, names) and writes 1-4 objects to a simulated disk with the five writers or through the public MidiFile/MidiTrack classes, fault-free, under short raw writes, or under an injected ENOSPC/EIO/EACCES at a seeded byte offset. The bytes that reached the simulated disk are decoded by an independent SMF reader and compared clause by clause with a tick model. Non-trivial = at least one write reached the disk. Distinct = distinct run shape (writer kinds, mode, #tracks, key classes, value classes, rest positions, instrument kinds, repeat, fault kind, buffer size).",
             "state_measure": "not used for C16",
             "fault_kinds": ["short_write", "write_error", "open_error"],
-            "probes": ["instrument_attached_late", "same_bar_object_added_again", "container_not_ascending_after_item_assignment", "object_rewritten_after_edit", "path_overwritten_by_shorter_file", "leading_rest_with_midi_instrument", "rounding_value", "name_length_2_byte_vlq", "delta_needs_2_byte_vlq", "write_error_raised", "write_error_returned_false", "error_plan_did_not_bite", "get_midi_data_observed", "builder_refused", "skipped_precondition"],
+            "probes": ["instrument_attached_late", "same_bar_object_added_again", "container_not_ascending_after_item_assignment", "object_rewritten_after_edit", "path_overwritten_by_shorter_file", "leading_rest_with_midi_instrument", "rounding_value", "name_length_2_byte_vlq", "delta_needs_2_byte_vlq", "write_error_raised", "write_error_returned_false", "error_plan_did_not_bite", "get_midi_data_observed", "builder_refused", "skipped_precondition", "theory_chatter_ops", "theory_chatter_call_refused", "theory_chatter_call_cut_short", "music_transposed_after_building", "transposition_not_semitone_exact", "iteration_left_early_before_use", "bar_object_shared_by_two_tracks", "library_bar_differs_from_what_was_built", "library_track_differs_from_what_was_built", "library_composition_differs_from_what_was_built"],
             "clauses": ["C16.frame", "C16.noteon", "C16.noteoff", "C16.single", "C16.repeat", "C16.tempo", "C16.name", "C16.program", "C16.timesig", "C16.keysig", "C16.vlq", "C16.success_implies_complete", "C16.stall"],
             "components_real": common_real,
             "components_stub": ["disk (dsim.simfs raw file + fault plans)", "print"],
@@ -1209,7 +1209,7 @@ def describe(prop):
         "rule": "Each run is a history over a small simulated disk: compositions built through the library API are written (write_Composition/write_Track or the public classes), paths are overwritten, stored bytes are damaged in the regions the statement names (MThd tag, format field, MTrk tags), and files are read back with a fresh or a reused reader, under transparent short reads/writes. What is read back is compared with a model of the last object written to that path. Non-trivial = at least one file operation. Distinct = distinct run shape (write shapes as in C16 x history pattern x reader kind x flip region x fault kind).",
         "state_measure": "not used for C17",
         "fault_kinds": ["short_write", "short_read", "stored_flip"],
-        "probes": ["instrument_attached_late", "same_bar_object_added_again", "container_not_ascending_after_item_assignment", "track_begins_with_rest", "consecutive_rests", "reader_reused", "reader_reused_after_reject", "flip_MThd", "flip_format", "flip_MTrk", "flip_whole_tag", "key_read_back_C", "key_read_back_major_natural", "key_read_back_major_accidental", "key_read_back_minor", "builder_refused", "skipped_precondition"],
+        "probes": ["instrument_attached_late", "same_bar_object_added_again", "container_not_ascending_after_item_assignment", "track_begins_with_rest", "consecutive_rests", "reader_reused", "reader_reused_after_reject", "flip_MThd", "flip_format", "flip_MTrk", "flip_whole_tag", "key_read_back_C", "key_read_back_major_natural", "key_read_back_major_accidental", "key_read_back_minor", "builder_refused", "skipped_precondition", "theory_chatter_ops", "theory_chatter_call_refused", "theory_chatter_call_cut_short", "music_transposed_after_building", "transposition_not_semitone_exact", "iteration_left_early_before_use", "bar_object_shared_by_two_tracks", "library_bar_differs_from_what_was_built", "library_track_differs_from_what_was_built", "library_composition_differs_from_what_was_built", "c17_track_outside_domain_not_whole_ticks"],
         "clauses": ["C17.tracks", "C17.sequence", "C17.dynamics", "C17.tempo", "C17.name", "C17.program", "C17.meter", "C17.key", "C17.vlq_inverse", "C17.reject", "C17.stall"],
         "components_real": common_real + ["mingus.midi.midi_file_in (MidiFile parsers, MIDI_to_Composition)"],
         "components_stub": ["disk (dsim.simfs raw file + fault plans)", "print"],
